@@ -95,6 +95,7 @@ class Check:
         self.coverage = {}
         self.samples = []
         self.fingerprints = set()
+        self.distinct_extra = 0    # distinct non-trivial cases counted by a monitor itself (distinct by construction)
         self.evaluations = 0
         self.assumptions = []
         self.rule = ''
@@ -154,7 +155,7 @@ class Check:
                 reported.append((key, detail, path))
         cov = dict(self.coverage)
         cov['evaluations'] = int(self.evaluations)
-        cov['distinct_nontrivial'] = len(self.fingerprints)
+        cov['distinct_nontrivial'] = len(self.fingerprints) + self.distinct_extra
         cov['rule'] = self.rule
         cov['samples'] = self.samples if self.samples else ['(none recorded)']
         cov['inconclusive'] = len(self.inconclusive)
@@ -179,7 +180,7 @@ class Check:
             seen.add(key)
             print('VIOLATION property=%s replay=%s key=%s :: %s' % (self.prop, path or '-', key, str(detail)[:600]))
         print('%s %s seed=%d: evaluations=%d distinct_nontrivial=%d violations=%d known=%d inconclusive=%d wall=%.1fs' % (
-            self.prop, self.tier, seed(), self.evaluations, len(self.fingerprints), len(reported), len(known_hit),
+            self.prop, self.tier, seed(), self.evaluations, len(self.fingerprints) + self.distinct_extra, len(reported), len(known_hit),
             len(self.inconclusive), wall))
         if reported:
             sys.exit(1)
@@ -226,6 +227,8 @@ def run_online(chk, exe, nbatches, extra=(), timeout=3600):
                 continue
             if 'fp' in o:
                 chk.fp(o['fp'])
+            elif 'distinct_nontrivial' in o:
+                chk.distinct_extra += int(o['distinct_nontrivial'])
             elif 'stats' in o:
                 got_stats = True
                 for k, v in o['stats'].items():
